@@ -134,6 +134,7 @@ def run(ctx):
     from props import c15
     c15.equal_values_in_sequence(ctx)       # 1 then 1.0 then True on one evaluator: each is hashed by its own printed form
     progcases.run_cases(ctx, gen.type_twin_return_programs(), check_model=False, want_stages=False)      # the published scheme returns the declared value, with its type, in every return statement
+    choicelib.run_salt_alphabet(ctx)
     choicelib.run_key_lengths(ctx, 18 if ctx.tier == 'quick' else 23)      # the whole key reaches the digest, whatever its length
 
 
